@@ -137,6 +137,9 @@ Proof.
   exists z. split; [reflexivity|]. destruct (z =? 0)%Z; [discriminate Hc|reflexivity].
 Qed.
 
+Lemma int_to_flt_float : forall z, acls_has (AK K_float) (PNum (int_to_flt z)) = true.
+Proof. intro z. unfold int_to_flt. destruct z as [|p|p]; [reflexivity| |]; destruct (strip2 p); reflexivity. Qed.
+
 Lemma floatable_sound : forall c v, floatable c = true -> acls_has c v = true ->
     exists x, to_float v = Ok x /\ acls_has (AK K_float) x = true.
 Proof.
@@ -147,8 +150,20 @@ Proof.
   - destruct b; eexists; (split; [reflexivity|]); unfold int_to_flt; cbn; reflexivity.
   - destruct b; [|discriminate Hc]. eexists; (split; [reflexivity|]); unfold int_to_flt; cbn; reflexivity.
   - destruct b; [discriminate Hc|]. eexists; (split; [reflexivity|]); unfold int_to_flt; cbn; reflexivity.
-  - rewrite Hc. eexists. split; [reflexivity|]. unfold int_to_flt.
-    destruct z as [|p|p]; [reflexivity| |]; destruct (strip2 p); reflexivity.
+  - rewrite Hc. eexists. split; [reflexivity|]. apply int_to_flt_float.
+Qed.
+
+(* float() of an int, a bool or a float: a float, or OverflowError - nothing else *)
+Lemma float_or_overflow_sound : forall c v, float_or_overflow c = true -> acls_has c v = true ->
+    (exists x, to_float v = Ok x) \/ to_float v = Raise OverflowError.
+Proof.
+  intros c v Hp Hc. unfold float_or_overflow in Hp. apply orb_true_iff in Hp as [Hp|Hp].
+  - left. destruct (floatable_sound _ _ Hp Hc) as (x & Hx & _). eauto.
+  - destruct c as [k0| | | | | |]; [destruct k0|..]; try discriminate Hp;
+      dval v; try dnum n; cbn [acls_has isinstance1] in Hc; try discriminate Hc; cbn [to_float].
+    + left. eauto.
+    + destruct (float_exact z); [left; eauto|]. destruct (Z.abs (round_int z) <? two_1024)%Z; [left; eauto|right; reflexivity].
+    + destruct (float_exact z); [left; eauto|]. destruct (Z.abs (round_int z) <? two_1024)%Z; [left; eauto|right; reflexivity].
 Qed.
 
 Lemma truthy_sound : forall c v, acls_has c v = true -> py_truthy v = true -> may_be_truthy c = true.
@@ -362,8 +377,10 @@ Section Sound.
     - destruct (eval_val self vals e1) as [v|]; [|discriminate He]. cbn [bind] in He.
       dval v; try dnum n; cbn [to_float] in He; try discriminate He.
       + inversion He. unfold int_to_flt. destruct b; cbn; reflexivity.
-      + destruct (float_exact z); [|destruct (Z.abs z <? two_1024)%Z; discriminate He].
-        inversion He. unfold int_to_flt. destruct z as [|p|p]; [reflexivity| |]; destruct (strip2 p); reflexivity.
+      + assert (Hf : forall y, absv_has (Some [AK K_float]) (PNum (int_to_flt y)) = true).
+        { intro y. cbn [absv_has acls_any existsb]. rewrite int_to_flt_float. reflexivity. }
+        destruct (float_exact z); [inversion He; apply Hf|].
+        destruct (Z.abs (round_int z) <? two_1024)%Z; [|discriminate He]. inversion He. apply Hf.
       + inversion He. reflexivity.
     - destruct (eval_val self vals e1) as [v|]; [|discriminate He]. cbn [bind] in He.
       unfold py_unique_list in He. destruct (py_seq_items v); [|discriminate He]. cbn [bind] in He.
@@ -519,11 +536,24 @@ Section Sound.
     - discriminate Hs.
   Qed.
 
+  Lemma tsafe_sound : forall env vals a x,
+      env_ok env self vals = true -> tsafe env a x = true ->
+      (exists v, eval_val self vals a = Ok v) \/ eval_val self vals a = Raise x.
+  Proof.
+    intros env vals a x H Hs. unfold tsafe in Hs. apply orb_true_iff in Hs as [Hs|Hs].
+    - left. eapply vsafe_sound; eassumption.
+    - destruct a as [n|at0|c|e1|sb e1|kv e1|e1|e1]; try discriminate Hs. destruct x; try discriminate Hs.
+      apply andb_true_iff in Hs as [Hs Hc]. destruct (vsafe_sound _ _ _ H Hs) as (v & Hv).
+      cbn [eval_val]. rewrite Hv. cbn [bind].
+      destruct (all_of_has _ _ _ Hc (aty_sound _ _ _ _ H Hv)) as (c & Hp & Hh).
+      exact (float_or_overflow_sound _ _ Hp Hh).
+  Qed.
+
   (* ---------------------------------------------------------------- the theorem *)
   Theorem gsafe_sound : forall p env vals,
       env_ok env self vals = true -> gsafe env p = true -> forall e, run re self vals p <> Bare e.
   Proof.
-    induction p as [n|tid x|c th IHt el IHe|c a b k IHk|]; intros env vals H Hs e;
+    induction p as [n|tid x|c th IHt el IHe|c a b k IHk|a x h IHh k IHk|]; intros env vals H Hs e;
       cbn [gsafe] in Hs; (apply orb_true_iff in Hs as [Hb|Hs]; [exfalso; eapply bottom_absurd; eassumption|]);
       cbn [run].
     - destruct (nth_error (a_vars env) n) as [a|] eqn:Hn; [|discriminate Hs].
@@ -547,18 +577,27 @@ Section Sound.
       apply andb_true_iff in H as [Hvars Hattrs]. rewrite Hattrs, andb_true_r.
       apply vars_ok_app; [exact Hvars|].
       destruct t; [apply absv_join_l|apply absv_join_r]; unfold branch_ty; rewrite Hnb; eapply aty_sound; eassumption.
+    - apply andb_true_iff in Hs as [Hs Hk]. apply andb_true_iff in Hs as [Ht Hh].
+      destruct (tsafe_sound _ _ _ _ H Ht) as [(v & Hv)|Hr].
+      + rewrite Hv. eapply IHk; [|exact Hk]. unfold env_ok in *. cbn [a_vars a_attrs].
+        apply andb_true_iff in H as [Hvars Hattrs]. rewrite Hattrs, andb_true_r.
+        apply vars_ok_app; [exact Hvars|]. eapply aty_sound; [|exact Hv]. unfold env_ok. rewrite Hvars, Hattrs. reflexivity.
+      + rewrite Hr. assert (Ex : exn_eqb x x = true) by (destruct x; try reflexivity; apply pystr_eqb_refl).
+        rewrite Ex. eapply IHh; eassumption.
     - discriminate Hs.
   Qed.
 
   Theorem run_sites : forall p vals tid x, run re self vals p = Named tid x -> In (tid, x) (sites p).
   Proof.
-    induction p as [n|tid0 x0|c th IHt el IHe|c a b k IHk|]; intros vals tid x Hr; cbn [run sites] in *.
+    induction p as [n|tid0 x0|c th IHt el IHe|c a b k IHk|a x1 h IHh k IHk|]; intros vals tid x Hr; cbn [run sites] in *.
     - destruct (nth_error vals n); discriminate Hr.
     - inversion Hr; subst. left. reflexivity.
     - apply in_or_app. destruct (eval_cond re self vals c) as [[|]|]; [left; eapply IHt|right; eapply IHe|discriminate Hr];
         eassumption.
     - destruct (eval_cond re self vals c) as [t|]; [|discriminate Hr].
       destruct (eval_val self vals (if t then a else b)); [|discriminate Hr]. eapply IHk; eassumption.
+    - apply in_or_app. destruct (eval_val self vals a) as [v|e0]; [right; eapply IHk; eassumption|].
+      destruct (exn_eqb e0 x1); [left; eapply IHh; eassumption|discriminate Hr].
     - discriminate Hr.
   Qed.
 End Sound.
